@@ -12,6 +12,17 @@ import (
 // when the lock is acquired and must hold when it is released (CSL mutex rule;
 // the soundness of the rule is trusted, its premises are checked here).
 func (e *Exec) onLock(st *State, fr *Frame, site ssa.Instruction, m *Term, exclusive, acquire bool) {
+	// path-local list of the locks this function has acquired itself (see checkCallerNoLocks)
+	if acquire {
+		st.acq = append(append([]*Term(nil), st.acq...), m)
+	} else {
+		for i := len(st.acq) - 1; i >= 0; i-- {
+			if st.acq[i].String() == m.String() {
+				st.acq = append(append([]*Term(nil), st.acq[:i]...), st.acq[i+1:]...)
+				break
+			}
+		}
+	}
 	if acquire && exclusive {
 		// state guarded by the lock may have been changed by other threads while
 		// it was free: the per-lock frame counter is unknown at acquisition and is
@@ -227,4 +238,25 @@ func (e *Exec) checkCallGuards(st *State, fr *Frame, site ssa.Instruction, name 
 		e.noAssume = false
 		e.curTags = save
 	}
+}
+
+// checkCallerNoLocks: a user callback (functype contract with `callernolocks Cxx`) must not be
+// invoked while the calling function still holds a lock it acquired itself: every other request
+// that needs the lock would wait for the callback. One obligation per lock acquired on this path
+// and not released by a syntactically matching unlock; the obligation itself is semantic
+// (the lock is not held now), so a release through an alias still discharges it.
+func (e *Exec) checkCallerNoLocks(st *State, fr *Frame, site ssa.Instruction, c *Contract) {
+	if len(c.NoLocks) == 0 {
+		return
+	}
+	save := e.curTags
+	e.curTags = c.NoLocks
+	e.noAssume = true
+	goal := TTrue
+	for _, l := range st.acq {
+		goal = And(goal, Not(Select(ghostBool(st, "held"), l)), Not(Select(ghostBool(st, "rheld"), l)))
+	}
+	e.check(st, fr, "LOCK.callback", site, "no lock acquired by this function is held while "+c.Name+" runs | "+e.P.srcLine(site.Pos()), goal)
+	e.noAssume = false
+	e.curTags = save
 }
